@@ -349,6 +349,14 @@ def gen_sampler_case(rng, kind, preset=None):
     must.append(list(at["coord"][int(rng.integers(0, len(at["coord"])))]))
     if rng.random() < 0.7:
         must.append(list(deriv[int(rng.integers(0, len(deriv)))]))
+    if kind in ("pinn", "mean", "single") and not group and c["sampler"]["op"] not in ("static", "empty", "empty_static") and rng.random() < 0.5:
+        # the residual differentiates a data function with respect to a coordinate it depends on (e.g. div(a(x) grad u)):
+        # only with a non-static sampler (static samplers pre-evaluate the data functions without a graph)
+        cand = [d_ for d_ in c["data"] if d_.get("const") is None and d_.get("args")]
+        if cand:
+            d_ = cand[int(rng.integers(0, len(cand)))]
+            ai = int(rng.integers(0, len(d_["args"])))
+            must.append(["ddata", d_["name"], int(rng.integers(0, d_["dim"])), d_["args"][ai], int(rng.integers(0, d_["argdims"][ai]))])
     ncomp = int(rng.integers(1, 4))
     c["residual"] = gen_residual(rng, at, ncomp, must, deriv if rng.random() < 0.7 else [], integral)
     extras = one_per_object(at["coord"]) + one_per_object(at["out"])
